@@ -12,9 +12,12 @@ var collSeq = vkit.NewCollector("C16", "TestSequences", "sequences of 1-14 Regis
 var collPair = vkit.NewCollector("C16", "TestConcurrentPairs", "two registrations issued concurrently after 0-4 set-up registrations (barrier start, 50 rounds, race detector, drawn GOMAXPROCS), biased to A and its reverse; oracle = the two results equal those of one of the two serial orders. Non-trivial = the serial orders give different results.")
 var collEnum = vkit.NewCollector("C16", "TestEnumSmall", "complete enumeration of every sequence of up to 3 (quick) / 4 (thorough, sharded) registrations over 3 names with upcasters from {faithful, returns-its-own-source}; same oracle.")
 
+var collDuring = vkit.NewCollector("C16", "TestReplayWhileWriting", "a registry writer arrives while an upcasting replay is inside an upcast function: 1-6 set-up registrations over 2-5 names (faithful, failing - biased -, type-deviating upcasters), one stored event per name; the k-th upcaster application starts RegisterUpcastFunc (unrelated names) / ClearUpcasts / ClearUpcastsForType on another goroutine, lingers 0-2 ms without synchronising with it and then returns or fails as registered; upcast error handler installed or not; race detector on. Oracle: the replay and the writer both return (a hang must reproduce twice), no upcaster budget overrun, every stored event reaches the callback once. Non-trivial = the writer was started.")
+
 func TestMain(m *testing.M) { vkit.Main(m) }
 
 func TestSequences(t *testing.T)       { vkit.Check(t, collSeq, Gen, Run) }
+func TestReplayWhileWriting(t *testing.T) { vkit.Check(t, collDuring, GenDuring, RunDuring) }
 func TestConcurrentPairs(t *testing.T) { vkit.Check(t, collPair, GenPair, RunPair) }
 
 func TestEnumSmall(t *testing.T) {
@@ -39,5 +42,5 @@ func TestEnumSmall(t *testing.T) {
 
 func TestReplay(t *testing.T) {
 	r := vkit.NeedReplay(t)
-	_ = vkit.ReplayCase(t, r, collSeq, Run) || vkit.ReplayCase(t, r, collEnum, Run) || vkit.ReplayCase(t, r, collPair, RunPair)
+	_ = vkit.ReplayCase(t, r, collSeq, Run) || vkit.ReplayCase(t, r, collEnum, Run) || vkit.ReplayCase(t, r, collPair, RunPair) || vkit.ReplayCase(t, r, collDuring, RunDuring)
 }
